@@ -56,12 +56,23 @@ TRUSTED_BASE = [
     "RTDCWriter.store_feature/store_log/write_text store what they are given "
     "(C01); values of completed min/max/mean attributes (C20)",
     "the tdms reader (tdms2rtdc is compared with it, not modelled)",
+    "md5 names of rewritten internal basins (hypotheses rekey_inj, "
+    "rekey_fresh of C08_copy_preserves_basin_definitions): injective and "
+    "never the name of a basin definition of the source",
 ]
 ASSUMPTIONS = [
     "names inside one HDF5 group are unique; the input has an 'events' group",
     "all dimensions of a non-empty dataset are positive; chunk sizes positive",
     "strings contain no NUL bytes (HDF5 strings are NUL terminated)",
-    "meta_prefix is '' (as in all four tasks)",
+    "meta_prefix is '' in all four tasks; rtdc_copy(meta_prefix=p) renames "
+    "logs but not tables (the docstring says both): names are compared "
+    "modulo the prefix, content must be preserved either way (not a C08 "
+    "defect: no task passes a prefix)",
+    "not content in the sense of the property, and dropped by the copy "
+    "(checked: the model has no place for them): unknown top-level groups, "
+    "attributes of HDF5 groups; unknown metadata keys ARE copied; groups "
+    "nested inside a feature group are copied leaf by leaf at any depth "
+    "(flattened to path names in the model)",
     "a file without any recognised non-defective feature (its copy has no "
     "events group and dclab cannot open it) is compared with raw h5py only",
     "an empty log carries no content is NOT assumed: with the proposed repair "
@@ -119,6 +130,7 @@ def gen_case(rng, thorough=False, force=None):
             feats.append(dict(name="contour", kind="contour",
                               layout="writer"))
     drop_stats = rng.random() < 0.4
+    junk = rng.random() < 0.3
     extra = []
     if rng.random() < 0.25:
         extra.append(dict(name=rng.choice(["unknown_feat", "zz_custom",
@@ -183,8 +195,24 @@ def gen_case(rng, thorough=False, force=None):
                     include_basins=rng.random() < 0.7,
                     include_logs=rng.random() < 0.7,
                     include_tables=rng.random() < 0.7,
+                    meta_prefix=rng.choice(["", "", "src-#1_"]),
                     list_pick=rng.randint(0, 10 ** 6))
-    case = dict(seed=rng.randint(0, 10 ** 9), n=n, feats=feats,
+    if task == "copy" and n > 0 and rng.random() < 0.4 and \
+            not any(f["kind"] == "trace" for f in feats):
+        feats.append(dict(name="trace", kind="trace",
+                          layout=rng.choice(LAYOUTS)))
+    if task == "condense" and n > 0 and rng.random() < 0.6 and \
+            not any(b["type"] in ("file", "mapped") for b in basins):
+        basins.append(dict(type=rng.choice(["mapped", "mapped", "file"]),
+                           nfeat=rng.choice([1, 2]),
+                           nonscalar=rng.random() < 0.3, layout="writer"))
+    if task == "copy" and rng.random() < 0.7:
+        # groups inside a feature group, two levels deep (only where the
+        # comparison is raw: dclab itself cannot read such a trace group)
+        for f in feats:
+            if f["kind"] == "trace":
+                f["nested"] = True
+    case = dict(seed=rng.randint(0, 10 ** 9), n=n, feats=feats, junk=junk,
                 drop_stats=drop_stats, extra=extra, logs=logs, tables=tables,
                 basins=basins, soft=soft, task=task, opts=opts)
     case.update(force)
@@ -385,6 +413,23 @@ def build_input(case, d, tag="in"):
                         for a in ("min", "max", "mean")[:rng.randint(1, 3)]:
                             ev[f["name"]].attrs.pop(a, None)
                         ev[f["name"]].attrs["custom"] = "hello %d" % rng.randint(0, 9)
+        for f in case["feats"]:
+            if f.get("nested") and f["name"] in ev:
+                g1 = ev[f["name"]].create_group("deep")
+                g1.create_dataset("fl9_raw", data=np.arange(nn * 4).reshape(
+                    nn, 4), **layout_kwargs(f["layout"], (nn, 4)))
+                g2 = g1.create_group("deeper")
+                d2 = g2.create_dataset("fl8_raw", data=gen.dyadic(rng, nn))
+                d2.attrs["depth"] = 3
+                g1.create_group("void")
+        if case.get("junk"):
+            # things rtdc_copy knows nothing about: an unknown top-level
+            # group, attributes of groups, a user-defined metadata key
+            ug = h5.create_group("user_stuff")
+            ug.create_dataset("numbers", data=np.arange(5))
+            ug.attrs["what"] = "unknown group"
+            ev.attrs["group attribute"] = "on events"
+            h5.attrs["user:verif note"] = "hello %d" % rng.randint(0, 99)
         for x in case["extra"]:
             kw = layout_kwargs(x["layout"], (nn,))
             d_ = ev.create_dataset(x["name"], data=gen.dyadic(rng, nn), **kw)
@@ -592,13 +637,21 @@ def soft_strip(value, version, ref_value=None):
     return value
 
 
+def unprefix(name, prefix):
+    """rtdc_copy(meta_prefix=...) renames the logs (the docstring also says
+    the tables, the code does not): names are compared modulo the prefix"""
+    if prefix and name.startswith(prefix):
+        return name[len(prefix):]
+    return name
+
+
 def observe(path, names, ref_path=None, is_output=False, in_md5=None,
-            stored=(), task=None):
+            stored=(), task=None, prefix=""):
     """Abstract view of an .rtdc file (dict mirror of the Coq h5file)."""
     import h5py
     import dclab
     out = dict(attrs=[], events=[], bevents=[], logs=[], tables=[],
-               basins=[])
+               basins=[], other=[])
     ref = h5py.File(ref_path, "r") if ref_path else None
 
     def refget(p):
@@ -620,8 +673,14 @@ def observe(path, names, ref_path=None, is_output=False, in_md5=None,
                 obj = h5["events"][name]
                 fid = names.get("feat", name)
                 if isinstance(obj, h5py.Group):
+                    # nested groups are flattened: a member is named by its
+                    # path below the feature group (h5ds_copy recurses and
+                    # copies the leaves; empty sub-groups leave no trace)
                     ch = []
-                    for c in obj:
+                    leaves = []
+                    obj.visititems(lambda p_, o_: leaves.append(p_)
+                                   if isinstance(o_, h5py.Dataset) else None)
+                    for c in sorted(leaves):
                         ch.append([names.get("child", c),
                                    obs_dset(obj[c], names,
                                             refget("events/%s/%s" % (name, c)),
@@ -642,6 +701,9 @@ def observe(path, names, ref_path=None, is_output=False, in_md5=None,
             for name in h5.get("logs", {}):
                 lid = None
                 cmd = cmd_logs(task)
+                fullname = name
+                if is_output:
+                    name = unprefix(name, prefix)
                 refname = name
                 if is_output:
                     if name in cmd:
@@ -657,14 +719,28 @@ def observe(path, names, ref_path=None, is_output=False, in_md5=None,
                     lid = cmd[name]
                 if lid is None:
                     lid = names.get("log", name)
-                out["logs"].append([lid, obs_dset(h5["logs"][name], names,
+                out["logs"].append([lid, obs_dset(h5["logs"][fullname], names,
                                                   refget("logs/" + refname), is_output=is_output)])
-            for name in h5.get("tables", {}):
+            for fullname in h5.get("tables", {}):
+                name = unprefix(fullname, prefix) if is_output else fullname
                 out["tables"].append(
                     [names.get("table", name),
-                     obs_dset(h5["tables"][name], names,
+                     obs_dset(h5["tables"][fullname], names,
                               refget("tables/" + name),
                               auto_chunks=is_output, is_output=is_output)])
+            if is_output:
+                # what the copy must not carry over (the model has no place
+                # for it): unknown top-level groups, attributes of groups
+                for name in h5:
+                    if name not in ("events", "basin_events", "logs", "tables",
+                                    "basins"):
+                        out["other"].append([7, names.get("attr", name)])
+                groups = []
+                h5.visititems(lambda p_, o_: groups.append(p_)
+                              if isinstance(o_, h5py.Group) else None)
+                for g in groups:
+                    for a in h5[g].attrs:
+                        out["other"].append([8, names.get("attr", g + "@" + a)])
             for key in h5.get("basins", {}):
                 bd = basin_dict(h5["basins"][key])
                 old = bd.pop("key", None)
@@ -703,6 +779,7 @@ def rows_of(f):
     for kid, internal, feats, rest, d in f["basins"]:
         rows.append([5, kid, 1 if internal else 0, rest, len(feats)] + feats
                     + enc_dset(d))
+    rows += f.get("other", [])
     return sorted(rows)
 
 
@@ -816,7 +893,8 @@ def run_task(case, path_in, path_out):
             rtdc_copy(src_h5file=src, dst_h5file=dst, features=feats,
                       include_basins=opts["include_basins"],
                       include_logs=opts["include_logs"],
-                      include_tables=opts["include_tables"])
+                      include_tables=opts["include_tables"],
+                      meta_prefix=opts.get("meta_prefix", ""))
 
 
 def copy_list(case, src):
@@ -893,7 +971,11 @@ def compare_content(case, path_in, path_out, second=False):
                     return "feature %s appeared in the output" % name
         # ---- logs
         li = {} if strip_logs else dict(hi.get("logs", {}).items())
-        lo = dict(ho.get("logs", {}).items())
+        prefix = opts.get("meta_prefix", "") if task == "copy" else ""
+        lo = {unprefix(k, prefix): v for k, v in ho.get("logs", {}).items()}
+        if prefix and li and not all(k.startswith(prefix)
+                                     for k in ho.get("logs", {})):
+            return "meta_prefix not applied to the logs"
         if task in ("compress", "condense"):
             added = cmd_logs(task)
             for k in list(lo):
@@ -923,7 +1005,7 @@ def compare_content(case, path_in, path_out, second=False):
                 return "log %s: %s" % (k, attr_diff(li[k], lo[k]))
         # ---- tables
         ti = {} if strip_tables else dict(hi.get("tables", {}).items())
-        to = dict(ho.get("tables", {}).items())
+        to = {unprefix(k, prefix): v for k, v in ho.get("tables", {}).items()}
         if sorted(ti) != sorted(to):
             return "tables %s -> %s" % (sorted(ti), sorted(to))
         for k in ti:
@@ -999,6 +1081,12 @@ def compare_content(case, path_in, path_out, second=False):
                 d = gen.feature_equal(da[f], db[f])
                 if d:
                     return "dclab: basin feature %s: %s" % (f, d)
+            for f, v in (basin_truth(path_in) if eb else {}).items():
+                if f not in db or not np.array_equal(
+                        np.asarray(db[f][:], dtype=float),
+                        np.asarray(v, dtype=float), equal_nan=True):
+                    return ("dclab: basin feature %s of the output differs "
+                            "from origin[basinmap]" % f)
             if not strip_logs:
                 for k in da.logs.keys():
                     k2 = k
@@ -1058,6 +1146,37 @@ def file_md5(path):
     return util.hashfile(path, count=80)
 
 
+def basin_truth(path_in):
+    """{feature: values} a file-based basin must provide, computed with raw
+    h5py from the origin file and the mapping stored in the input (model and
+    dclab independent): origin[feat][basinmap]"""
+    import h5py
+    import numpy as np
+    truth = {}
+    with h5py.File(path_in, "r") as h5:
+        for key in h5.get("basins", {}):
+            bd = basin_dict(h5["basins"][key])
+            if bd.get("type") != "file" or bd.get("format") != "hdf5":
+                continue
+            paths = [p_ for p_ in bd.get("paths", []) if os.path.exists(p_)]
+            if not paths:
+                continue
+            mapping = bd.get("mapping", "same")
+            with h5py.File(paths[0], "r") as ho:
+                for feat in bd.get("features") or []:
+                    if feat not in ho["events"] or feat in h5["events"] \
+                            or ho["events"][feat].ndim != 1:
+                        continue
+                    data = ho["events"][feat][()]
+                    if mapping == "same":
+                        truth[feat] = data
+                    else:
+                        idx = np.asarray(h5["events"][mapping][()],
+                                         dtype=np.int64)
+                        truth[feat] = data[idx]
+    return truth
+
+
 def condense_inputs(case, path_in):
     """what condense_dataset reads from the dclab dataset (oracles of the
     model) and the expected scalar features with their values"""
@@ -1076,8 +1195,17 @@ def condense_inputs(case, path_in):
         vals = {}
         for f in want:
             vals[f] = np.array(ds[f][:])
+    truth = basin_truth(path_in) if sb else {}
+    for f, v in truth.items():
+        if f not in want:
+            raise AssertionError("basin feature %s not offered by dclab" % f)
+        if not np.array_equal(np.asarray(v, dtype=float),
+                              np.asarray(vals[f], dtype=float),
+                              equal_nan=True):
+            raise AssertionError("dclab reads basin feature %s differently "
+                                 "from origin[basinmap] (C07)" % f)
     return dict(sc=sc, loaded=loaded, basin=basin, anc=anc, vals=vals,
-                want=want)
+                want=want, truth=truth)
 
 
 def condense_oracle(ci, path_out):
@@ -1086,6 +1214,16 @@ def condense_oracle(ci, path_out):
     import dclab
     with h5py.File(path_out, "r") as ho, \
             dclab.new_dataset(path_out) as db:
+        for f, v in ci.get("truth", {}).items():
+            # basin-provided scalar features must be *stored* in the output
+            # with the values of the origin at the mapped events
+            if f not in ho.get("events", {}):
+                return ("condense: basin feature %s is not stored in the "
+                        "output" % f)
+            if not np.array_equal(np.asarray(ho["events"][f][()], dtype=float),
+                                  np.asarray(v, dtype=float), equal_nan=True):
+                return ("condense: basin feature %s differs from "
+                        "origin[basinmap]" % f)
         for f in ci["want"]:
             if f in ho.get("events", {}):
                 got = ho["events"][f][()]
@@ -1227,7 +1365,9 @@ def judge(case, d, path_in):
         fout = None
     else:
         fout = observe(path_out, names, ref_path=path_in, is_output=True,
-                       in_md5=in_md5, stored=stored, task=task)
+                       in_md5=in_md5, stored=stored, task=task,
+                   prefix=(opts.get("meta_prefix", "") if task == "copy"
+                           else ""))
         with h5py.File(path_out, "r") as ho:
             warned = any(k.endswith("-warnings") and k in cmd_logs(task)
                          for k in ho.get("logs", {}))
@@ -1284,6 +1424,16 @@ def judge(case, d, path_in):
         res["counts"].append("log:%s%s" % (
             {1: "vlen", 2: "fixed"}.get(dd["kind"], "?"),
             "-empty" if dd["shape"][0] == 0 else ""))
+    if case.get("junk"):
+        res["counts"].append("unknown-group+group-attrs")
+    if any(f.get("nested") for f in case["feats"]):
+        res["counts"].append("nested-groups")
+    if task == "copy" and opts.get("meta_prefix"):
+        res["counts"].append("meta_prefix")
+    if ci is not None and ci.get("truth"):
+        res["counts"].append("condense-basin-truth:%d" % len(ci["truth"]))
+    for kid, internal, feats_, rest, dd in fin["basins"]:
+        res["counts"].append("basin:" + ("internal" if internal else "file"))
     res["counts"].append("task:" + task)
     res["counts"].append("n=%d" % case["n"])
     res["counts"].append("basins=%d" % len(fin["basins"]))
